@@ -280,7 +280,11 @@ func setup(run *lib.Run) {
 	must("kv p1", tPost(node(pp, "kv", "key/p1"), []byte("p-value")))
 	must("kv del g1", tDelete(node(pp, "kv", "key/g1")))
 	if has["lm"] {
-		must("lm raw P", tPost(node(pp, "lm", "raw/0_1_2/64_64_64/0_0_0"), volCBytes))
+		// supervoxel 3 is mapped at P (into 2) and mapped again at V (cleaved, then merged into 1):
+		// one supervoxel remapped in two versions of one ancestry
+		must("lm raw P", tPost(node(pp, "lm", "raw/0_1_2/64_64_64/0_0_0"), volABytes))
+		settle(pp)
+		must("lm merge P", tPost(node(pp, "lm", "merge?u=verif"), []byte("[2,3]")))
 	}
 	if has["gray"] {
 		must("gray raw P", tPost(node(pp, "gray", "raw/0_1_2/32_32_32/0_0_0"), grayB))
@@ -395,9 +399,11 @@ func fill(v string, has map[string]bool, variant string) {
 		must("gray extents", tPost(node(v, "gray", "extents"), []byte(`{"MinPoint":[0,0,0],"MaxPoint":[31,31,31]}`)))
 	}
 	if has["lm"] {
-		must("lm raw", tPost(node(v, "lm", "raw/0_1_2/64_64_64/0_0_0"), volABytes))
+		r := must("lm cleave", tPost(node(v, "lm", "cleave/2?u=verif"), []byte("[3]")))
+		var cl struct{ CleavedLabel uint64 }
+		json.Unmarshal(r.Body, &cl)
 		settle(v)
-		must("lm merge", tPost(node(v, "lm", "merge"), []byte("[1,3]")))
+		must("lm merge", tPost(node(v, "lm", "merge?u=verif"), []byte(fmt.Sprintf("[1,%d]", cl.CleavedLabel))))
 	}
 	if has["la"] {
 		must("la raw", tPost(node(v, "la", "raw/0_1_2/64_64_64/0_0_0"), volABytes))
